@@ -9,6 +9,14 @@ E3 = "E3 choice-tape explorer (vmc/engines/choice.py)"
 
 # id: (engine, technique, level text, level note, design ref)
 CHECKS = {
+ "C17": (E3, "stateless exploration of all outcomes of the internal random draws through a scripted random.Random: complete choice trees for the shuffles/swaps x every frozen subset, deviation-bounded tapes with horizon and retry bound for the two retry-loop moves, plus explicit-state BFS over chains of moves on live objects",
+         "For every charge pattern to length 5 (quick) / 6 (thorough) in a distinct-letter spelling, cached or not: swapRes on all (i,j); the complete tree of random outcomes of full_shuffle, swapRandChargeRes, get_shuffled_sequence and get_permutant for every frozen subset; permute_block_swap / permute_cluster_charges on all 729 6-mer patterns (thorough also all <=4-run 8-mers) within 1 (quick) / 2 (thorough) deviations of seeded base tapes; chains of moves from 3/5 roots to the fixpoint of the arrangement graph. ~1M executions in the quick tier, each judged for rearrangement, frozen positions, child bookkeeping vs a fresh object, carried delta-max, unchanged parent and package state. The frozen-argument defect of the two retry-loop moves is a known finding keyed by call site.",
+         "Randomness is owned via the module attribute rng of backend/sequence.py; executions cut by the horizon (60 choice points) or the retry bound (3 candidate children) are counted as truncated and not judged.",
+         "DESIGN.md section 2.1-E3, section 4 C17"),
+ "C18": (E3, "stateless deviation-bounded exploration of the random tape of whole Wang-Landau runs, lock-step with a reference WL machine driven by the guarded per-step hook; every model trace is validated against the implementation by construction",
+         "3 (quick) / 10 (thorough) configurations x 6/16 seeded base tapes: all tapes within 1 deviation of every base tape, within 2 of the shortest (thorough: three shortest) and within 3 of one; acceptance draws are placed on both sides of the model-computed acceptance probability. At every hook event the reference machine checks the proposal (rearrangement, true kappa, bin, range test), the acceptance probability, the decision, the g/H update of the occupied bin, the flat-check schedule, flatness test, f schedule, histogram reset and the stop condition; completed runs are checked against the returned array and the six output files.",
+         "Needs the guarded hook commit in backend/wang_landau.py; runs that exceed 400 choice points or the in-move retry bound are truncated and only checked step-wise; statistical properties of the sampler are not claimed.",
+         "DESIGN.md section 4 C18"),
  "C15": (E2, "explicit-state BFS over read-only call histories on 3/5 live objects to the canonical-state fixpoint (no depth bound), differential oracle against pristine first calls, merge validation",
          "State = full serialisation of every live object plus every localcider function's defaults/attributes/closures, module globals, class attributes and numpy/matplotlib global settings. All 168 (quick) / 280 (thorough) calls are executed from every reachable state (54 states / 18k transitions in the quick tier); each result must be bit-identical to the same call made first on a fresh object; alternative histories reaching a known state are expanded as well and must agree (merge validation). Because the search closes at a fixpoint it covers all finite histories over this alphabet.",
          "Assumes state outside the serialisation (third-party private state) does not influence results; argument values are a finite menu.",
